@@ -32,12 +32,16 @@ LEVEL_NOTE = ("Trusted: Coq kernel; hand-written models C16/Hooks.v (state machi
               "partial_register_dangling_refuted proves the violation (finding candidate: Hook.register is not exception-safe). "
               "NOT covered: hooks that mutate the hook lists while a call is dispatching, exceptions raised by hook callables, "
               "deletion of the hooked module, Hook.register(statehook, other_module), complex scale, p < 0, NaN inputs. "
-              "Targets the hooks cannot write are outside the property and only pinned: a bare nn.Parameter attribute "
-              "(Module.__setattr__ raises TypeError when the hook runs; property-backed parameters as in inferno's "
-              "WeightMixin work and are exercised) and Normalization of integer / bool tensors (vector_norm raises). Data "
-              "types, attribute-path resolution at run time and reassigned hook parameters are validated by correspondence "
-              "(per run opportunity, on the implementation's observed pre-state) and by the oracle; float32 targets are "
-              "compared with 3e-6 relative tolerance.")
+              "Known finding C16-bare-parameter-target (modelled in Norm.hook_step_target, theorem "
+              "bare_parameter_target_refuted, generated for both hook classes on inferno Modules, plain torch modules and "
+              "nn.Linear.weight): on a BARE nn.Parameter target the write-back raises TypeError, the hooked module's call "
+              "fails and the target is not clamped / normalised; the oracle demands the property there and reports exactly "
+              "that failure with its own signature (a silent skip, another exception type or an out-of-range result are "
+              "violations). Property-backed parameters (inferno's WeightMixin style) work and are exercised. Only pinned, "
+              "outside the property: Normalization of integer / bool tensors (vector_norm raises). Data types, "
+              "attribute-path resolution at run time and reassigned hook parameters are validated by correspondence (per run "
+              "opportunity, on the implementation's observed pre-state) and by the oracle; float32 targets are compared with "
+              "3e-6 relative tolerance.")
 HEADER = ("From Coq Require Import List ZArith Bool PrimFloat.\n"
           "From Inferno Require Import Base.Num Base.NumF C16.Hooks C16.Norm C16.HooksExec.\n"
           "Import ListNotations.\nOpen Scope float_scope.\n")
@@ -604,8 +608,16 @@ def gen_nseq_case(rng: random.Random, malformed: bool):
     for x in shape:
         n *= x
     storage = rng.choice(["plain", "plain", "buffer", "buffer", "param"])
-    if malformed and rng.random() < 0.3:
+    owner = "inferno"
+    if rng.random() < 0.12:
+        # a BARE nn.Parameter target: registered parameter of an inferno Module / of a plain torch module / the weight
+        # of an nn.Linear (known finding C16-bare-parameter-target: the write-back raises TypeError)
         storage = "param_direct"
+        owner = rng.choice(["inferno", "torch", "linear"])
+        if owner == "linear":
+            path = rng.choice([["conn", "weight"], ["layer", "conn", "weight"]])
+            shape = rng.choice([[2, 3], [3, 2], [1, 3]])
+            n = shape[0] * shape[1]
     if hook == "clamp":
         dts = [4, 5] if storage.startswith("param") else [0, 1, 2, 3, 3, 4, 5, 5]
     else:
@@ -613,7 +625,7 @@ def gen_nseq_case(rng: random.Random, malformed: bool):
     dt = rng.choice(dts)
     te, ee = rng.choice([(1, 1), (1, 1), (1, 1), (1, 0), (0, 1)])
     case = {"kind": "nseq", "hook": hook, "path": path, "inter": rng.choice(["module", "object"]), "storage": storage,
-            "dtype": dt, "shape": shape, "data": gen_data(rng, dt, n), "te": te, "ee": ee, "as_pre": rng.randint(0, 1)}
+            "owner": owner, "dtype": dt, "shape": shape, "data": gen_data(rng, dt, n), "te": te, "ee": ee, "as_pre": rng.randint(0, 1)}
 
     def bounds():
         lo, hi = rng.choice(BOUNDS + [None]), rng.choice(BOUNDS + [None])
@@ -725,16 +737,17 @@ def q_fire(op, fl):
 def q_nseq_terms(case, res):
     terms = []
     for i, op, fl, p, val, post in nseq_steps(case, res):
-        if not isinstance(val[0], int) or case["storage"] == "param_direct":
+        if not isinstance(val[0], int):
             terms.append(None)
             continue
+        bare = b(case["storage"] == "param_direct")
         dt, shape, flat = val
         vals = decode_flat(flat)
         if case["hook"] == "clamp":
-            terms.append(f"clamp_step {q_bound(p['lo'])} {q_bound(p['hi'])} {dt}%nat {q_fire(op, fl)} {q_tensor([vals])}")
+            terms.append(f"clamp_step {bare} {q_bound(p['lo'])} {q_bound(p['hi'])} {dt}%nat {q_fire(op, fl)} {q_tensor([vals])}")
         else:
             fibs = [[vals[o] for o in f] for f in fibre_index(shape, p["dim"])]
-            terms.append(f"norm_step {q_order(p['order'])} {q_fl(p['scale'])} {q_fl(p['eps'])} {dt}%nat "
+            terms.append(f"norm_step {bare} {q_order(p['order'])} {q_fl(p['scale'])} {q_fl(p['eps'])} {dt}%nat "
                          f"{q_fire(op, fl)} {q_tensor(fibs)}")
     return terms
 
@@ -805,6 +818,7 @@ def oracle_nseq(case, res):
     sp = NSpec(case)
     tr = res["trace"]
     ran = 0
+    known = None       # first instance of the listed finding; judging goes on, any OTHER failure takes precedence
     for i, op in enumerate(case["ops"]):
         pre, post = tr[i], tr[i + 1]
         k = op[0]
@@ -815,12 +829,23 @@ def oracle_nseq(case, res):
             return fail(f"target attribute unreadable: {post['val']}", {"kind": "nseq_unreadable"})
         if k in ("call", "manual"):
             fire = sp.fire(op)
-            direct = case["storage"] == "param_direct"
-            nonfloat_norm = case["hook"] == "norm" and pre["val"][0] < 4
-            outside = direct or nonfloat_norm      # the hook cannot work on such a target: not judged by the property
+            bare = case["storage"] == "param_direct"
+            # Normalization of an integer / bool tensor: vector_norm raises; not judged by the property
+            outside = case["hook"] == "norm" and pre["val"][0] < 4
             if post["err"]:
-                if not (fire and outside):
-                    return fail(f"unexpected error {post['err']}", {"kind": "nseq_error"})
+                if fire and bare and not outside and post["err"] == [4] and post["val"] == pre["val"]:
+                    # the property demands that the hook runs and leaves the target within bounds / normalised; on a bare
+                    # nn.Parameter target the write-back raises TypeError instead (finding C16-bare-parameter-target)
+                    if known is None:
+                        known = ({"step": i, "op": op,
+                                  "what": "the hook fired on a bare nn.Parameter target: the write-back raised TypeError (torch "
+                                          "refuses to assign a Tensor to a registered parameter), the call of the hooked module "
+                                          f"failed and the target was left as it was: {decode_flat(post['val'][2])}"},
+                                 {"kind": "bare_parameter_target",
+                                  "hook": "Clamping" if case["hook"] == "clamp" else "Normalization", "error": "TypeError"})
+                elif not (fire and outside):
+                    return fail(f"unexpected error {post['err']}" + (" on a bare nn.Parameter target" if bare else ""),
+                                {"kind": "nseq_error"})
                 ran = post["ran"]
             else:
                 if post["ran"] - ran != int(fire):
@@ -858,7 +883,7 @@ def oracle_nseq(case, res):
         sp.update(op)
         if post["flags"] != [int(sp.reg), int(sp.te), int(sp.ee), int(sp.training)]:
             return fail(f"flags {post['flags']}", {"kind": "state", "what": "nseq_flags"})
-    return None, None
+    return known if known is not None else (None, None)
 
 
 # ====================================================================== driver
@@ -976,6 +1001,8 @@ def run(ctx):
             # inside the finding's pattern an implementation that satisfies the oracle is accepted (upstream fix)
             if c.get("stream") == "fault" and od is None and any(o[0] == "new" and o[8] for o in c["ops"]):
                 continue
+            if c.get("storage") == "param_direct" and od is None:
+                continue     # finding C16-bare-parameter-target repaired upstream: the property holds on this case
             mismatches.append({"case": c, "detail": mm})
     if candidates:
         print(f"FINDING-CANDIDATE: property={ID} Hook.register is not exception-safe: when register_forward_hook raises after "
@@ -996,8 +1023,8 @@ def run(ctx):
                 "through a real module call (6 shapes, 8 norm orders, dims None/int/tuple, plain / buffer / nested attribute); "
                 "numeric-hook operation sequences (call / manual / train / exec / reg / dereg, the final tensor reassigned, an "
                 "INTERMEDIATE object of a 1-3 component attribute path rebound to a fresh object, hook parameters reassigned; "
-                "targets bool / int16 / int32 / int64 / float32 / float64 as plain attribute, buffer or property-backed parameter "
-                "under submodule or plain-object owners; fractional, integral-float and int bounds), post-condition checked on "
+                "targets bool / int16 / int32 / int64 / float32 / float64 as plain attribute, buffer, property-backed parameter or "
+                "bare nn.Parameter (inferno Module / plain torch module / nn.Linear.weight) under submodule or plain-object owners; fractional, integral-float and int bounds), post-condition checked on "
                 "the value reachable from the hooked module after each run; "
                 "non-trivial = history with construction, registration and a call (sm) or registered hook (numeric); distinct by "
                 "full case text" + ("; plus every depth-4 sequence over a 13-op alphabet on two hooks" if exhaustive else ""),
